@@ -132,6 +132,11 @@ func Base(d *Dialect) *schema.Schema {
 			schema.NewIndex("idx_d_inc").AddParts(part(1, dd)).AddAttrs(&postgres.IndexInclude{Columns: []*schema.Column{c}}),
 			schema.NewIndex("idx_d_part").AddParts(part(1, dd)).AddAttrs(&postgres.IndexPredicate{P: "d > 0"}),
 			schema.NewIndex("idx_d_hash").AddParts(part(1, dd)).AddAttrs(&postgres.IndexType{T: "HASH"}),
+			// operator classes: the access method's default one is spelled out (and must be treated as absent),
+			// first on an index without a method, then on one with a method whose defaults differ.
+			schema.NewIndex("idx_a_ops").AddParts(&schema.IndexPart{SeqNo: 1, C: a, Attrs: []schema.Attr{&postgres.IndexOpClass{Name: "int4_ops"}}}),
+			schema.NewIndex("idx_d_brin").AddParts(&schema.IndexPart{SeqNo: 1, C: dd, Attrs: []schema.Attr{&postgres.IndexOpClass{Name: "int4_minmax_ops"}}}).AddAttrs(&postgres.IndexType{T: "BRIN"}),
+			schema.NewIndex("idx_b_pattern").AddParts(&schema.IndexPart{SeqNo: 1, C: b, Attrs: []schema.Attr{&postgres.IndexOpClass{Name: "text_pattern_ops"}}}),
 		)
 		s.SetComment("schema comment")
 	case SQLite:
